@@ -11,7 +11,8 @@ Shape L (configuration lattice), level exploration: the full Cartesian product
 plus EVERY named preset (through the library's own resolve function) on the whole data alphabet,
 the other forms the resolve function accepts, the public `show_2d` path for every preset, the
 stretch/inverse identities on a 101-point grid, and a call-HISTORY part: every sequence of 2 (thorough 3) arrays with
-clearly different ranges pushed through ONE object per configuration, each call compared with a fresh object.
+clearly different ranges pushed through ONE object per configuration, each call compared with a fresh object; and a
+SIZE x PEDESTAL family: element counts straddling 2**16 / 2**20 / 2**22 with small-spread data on large offsets.
 
 Every point runs the real `CustomNormalization(...)(data)`. Oracles (none of them re-implements a
 stretch formula):
@@ -53,6 +54,8 @@ CLAIM = (
     "and masks every NaN; every stretch composed with its declared inverse is the identity on a 101-point grid. "
     "Every history of 2 (quick) or 3 (thorough) calls of ONE object on arrays with different ranges returns, call by call, what a fresh object returns "
     "(limits taken at call time follow the array of the call, limits frozen from data= stay frozen, process-wide default instances included). "
+    "A size x pedestal family (element counts just below / at / just above 2**16, 2**20 and, thorough, 2**22; int32/int64/float64 data of small spread on "
+    "pedestals up to 2**40 / 1e9) repeats the clauses on whole large arrays, so a behaviour that switches on the array size or loses the offset is seen. "
     "Exploration is the right level: the property quantifies over configurations and data kinds, not over histories."
 )
 NOTE = (
@@ -961,6 +964,258 @@ def default_instance_item(item, seed=0):
     return t
 
 
+# ----------------------------------------------------------------------------- SIZE x PEDESTAL family
+# Small arrays cannot see a behaviour that switches on the number of elements, and data of spread ~1 riding on a large
+# offset is the input that separates double from single precision. Element counts just below / at / just above 2**16,
+# 2**20 (thorough: 2**22) x contents on pedestals x a reduced configuration alphabet x both limit modes.
+# Clauses are evaluated on the WHOLE array with vectorised float64 operations (the float64 view of every content is exact:
+# |values| < 2**53); monotonicity through the sort order (sort by input, output must be non-decreasing — equivalent to all
+# ordered pairs); the linear stretch against the float64 affine map on the whole array and against exact rationals on a
+# strided sample plus the extreme / limit-adjacent entries.
+# Tolerance for int32/int64/float64 contents: TOL_SIZE = 1e-6. Worst deviations observed on the unchanged tree (quick: seeds
+# 0,1,2,7,12345; thorough: seeds 0,1): range 0, sort-order monotonicity 0, limits 2.3e-16 (relative to max(|lo|,|hi|,span)),
+# limit->0/1 0, affine on the whole array (float64) 0, affine on the sample (exact rationals) 1.1e-16.
+# float32 control (TOL32 = 5e-5): affine 8.7e-8, sort-order monotonicity 1.2e-7 (one float32 ulp of the log/power kernels), limits 2.3e-16.
+# Single-precision processing of data WITHOUT a pedestal moves results by ~6e-8 and is deliberately not flagged (TOL_SIZE is 16x
+# above it); on a 2**30 / 1e8 pedestal it moves them by 0.014 .. 1.0 (upper limit -> 0.986 or 0, mid values off by 0.08), i.e.
+# TOL_SIZE is >= 1e9 x the observed float64 deviation and <= 1/10000 of the smallest effect.
+TOL_SIZE = 1e-6
+SIZE_POWERS_QUICK = [16, 20]
+SIZE_POWERS_THOROUGH = [16, 20, 22]
+SIZE_CONTENTS = [
+    ("int32", 0), ("int32", 2**30), ("int64", 0), ("int64", 2**30), ("int64", 2**40),
+    ("float64", 0.0), ("float64", 1e8), ("float64", 1e9), ("float32", 0.0),
+]
+SIZE_INTERVALS = [("manual", {}), ("quantile", {"lower_quantile": 0.02, "upper_quantile": 0.98}), ("centered", {})]
+SIZE_STRETCHES = [("linear", {}), ("power", {"power": 0.5}), ("logarithmic", {"logarithmic_index": 1000.0})]
+SIZE_SAMPLE = 251
+
+
+def size_shapes(power, quick=False):
+    """(side label, shape): element counts just below / at / just above 2**power, 2-D and 1-D.
+    quick keeps two of the five shapes for 2**20 (at and above in 2-D; the 1-D equivalents run at 2**16 and in thorough):
+    a 1M-element array costs ~4 CPU-s."""
+    r = 1 << (power // 2)
+    c = (1 << power) // r
+    full = [("below", (r - 1, c)), ("at", (r, c)), ("above", (r + 1, c)), ("at", (1 << power,)), ("above", ((1 << power) + 1,))]
+    if quick and power >= 20:
+        return [full[1], full[2]]
+    return full
+
+
+def size_descriptors(quick):
+    out = []
+    for pw in (SIZE_POWERS_QUICK if quick else SIZE_POWERS_THOROUGH):
+        for side, shape in size_shapes(pw, quick):
+            for dt, ped in SIZE_CONTENTS:
+                out.append({"power": pw, "side": side, "shape": list(shape), "dtype": dt, "pedestal": ped})
+    return out
+
+
+def build_large(d, seed):
+    n = int(np.prod(d["shape"]))
+    rng = np.random.default_rng([seed, 20, 4242, d["power"], n, [c[0] for c in SIZE_CONTENTS].index(d["dtype"]), len(d["shape"])])
+    dt = np.dtype(d["dtype"])
+    if dt.kind == "i":  # ramp with noise, spread ~1000 counts, on the pedestal
+        base = (np.arange(n, dtype=np.int64) * 1000) // n + rng.integers(-20, 21, size=n)
+        a = (base + int(d["pedestal"])).astype(dt)
+    else:  # unit scale on the offset
+        a = (float(d["pedestal"]) + rng.random(n)).astype(dt)
+        a[7 % n] = np.nan
+    return a.reshape(d["shape"])
+
+
+class LargePrep:
+    """Everything about one large array that does not depend on the configuration."""
+
+    def __init__(self, a):
+        self.a = a
+        self.flat = a.ravel()
+        self.af = self.flat.astype(np.float64)  # exact for every content of this family
+        self.nanpos = np.flatnonzero(np.isnan(self.af))
+        self.fidx = np.flatnonzero(np.isfinite(self.af))
+        self.order = self.fidx[np.argsort(self.af[self.fidx], kind="stable")]
+        self.n = len(self.order)
+        if self.n < 2 or self.af[self.order[0]] == self.af[self.order[-1]]:
+            raise Broken("large array without two distinct finite values")
+
+    def stat(self, k):
+        return exact(self.flat[self.order[k]].item())
+
+    def limits(self, kw):
+        m, M = self.stat(0), self.stat(self.n - 1)
+        t = kw["interval_type"]
+        if t == "manual":
+            return m, M
+        if t == "centered":
+            c = exact(kw.get("vcenter", 0.0))
+            h = max(abs(m - c), abs(M - c))
+            return c - h, c + h
+
+        def q(p):
+            pos = exact(p) * (self.n - 1)
+            i = int(math.floor(pos))
+            if i >= self.n - 1:
+                return self.stat(self.n - 1)
+            return self.stat(i) + (pos - i) * (self.stat(i + 1) - self.stat(i))
+
+        return q(kw.get("lower_quantile", 0.02)), q(kw.get("upper_quantile", 0.98))
+
+    def sample(self, kw):
+        """Strided sample of the finite entries + the extremes + the order statistics next to the quantile positions."""
+        stride = max(1, self.n // SIZE_SAMPLE)
+        idx = set(self.order[::stride].tolist()) | {int(self.order[0]), int(self.order[-1]), int(self.order[self.n // 2])}
+        for p in (kw.get("lower_quantile", 0.02), kw.get("upper_quantile", 0.98)):
+            k = int(math.floor(p * (self.n - 1)))
+            for kk in (k - 1, k, k + 1, k + 2):
+                if 0 <= kk < self.n:
+                    idx.add(int(self.order[kk]))
+        return sorted(idx)
+
+
+def measure_large(P, mode, kw):
+    """One configuration on one large array: (problems, deviations, info)."""
+    cn = _lib()
+    a = P.a
+    tol = TOL32 if a.dtype == np.float32 else TOL_SIZE
+    tol_lim = TOL32 if a.dtype == np.float32 else TOL64
+    probs, dev, info = [], {}, {}
+    try:
+        with warnings.catch_warnings():
+            warnings.simplefilter("ignore")
+            with np.errstate(all="ignore"):
+                norm = cn.CustomNormalization(data=a if mode == "frozen" else None, **kw)
+                out = norm(a)
+                rep = (norm.vmin, norm.vmax) if mode == "frozen" else norm.interval.get_limits(a)
+                rep = (float(rep[0]), float(rep[1]))
+                ends = None
+                if mode == "frozen":
+                    e = norm(np.array(rep, dtype=np.float64))
+                    ends = ([float(x) for x in np.ma.getdata(e)], [bool(x) for x in np.ma.getmaskarray(e)])
+    except Exception as e:
+        return [("raises", f"raised {type(e).__name__}: {e}")], dev, info
+    if tuple(np.shape(out)) != a.shape:
+        return [("shape", f"output shape {tuple(np.shape(out))} != input shape {a.shape}")], dev, info
+    o = np.ma.getdata(out).ravel().astype(np.float64)
+    msk = np.ma.getmaskarray(out).ravel()
+    af, order = P.af, P.order
+    info.update(rep=rep, out_min=float(np.nanmin(o[P.fidx])), out_max=float(np.nanmax(o[P.fidx])))
+    if len(P.nanpos) and not msk[P.nanpos].all():
+        k = int(P.nanpos[~msk[P.nanpos]][0])
+        probs.append(("nan_masked", f"NaN at flat index {k} came back unmasked with value {o[k]!r}"))
+    if msk[P.fidx].any():
+        k = int(P.fidx[msk[P.fidx]][0])
+        probs.append(("finite_unmasked", f"finite entry {P.flat[k]!r} at flat index {k} came back masked"))
+    of = o[P.fidx]
+    rdev = float(max(-of.min(), of.max() - 1.0, 0.0)) if not np.isnan(of).any() else float("inf")
+    dev["range"] = rdev
+    if not rdev <= tol:
+        k = int(P.fidx[int(np.nanargmax(np.where(np.isnan(of), np.inf, np.maximum(-of, of - 1.0))))])
+        probs.append(("into_unit_interval", f"finite entry {P.flat[k]!r} maps to {o[k]!r}, outside [0, 1]"))
+    lo_e, hi_e = P.limits(kw)
+    if not lo_e < hi_e:
+        return probs, dev, info
+    # monotone: sorted by input, the output must be non-decreasing
+    os_ = o[order]
+    dd = os_[:-1] - os_[1:]
+    dd = np.where(np.isnan(dd), np.inf, dd)
+    k = int(np.argmax(dd))
+    dev["mono"] = float(max(dd[k], 0.0))
+    if dd[k] > tol:
+        i, j = int(order[k]), int(order[k + 1])
+        probs.append(("monotone", f"entries {P.flat[i]!r} <= {P.flat[j]!r} (neighbours in sort order, flat indices {i}, {j}) map to {o[i]!r} > {o[j]!r}"))
+    # limits
+    lo_f, hi_f = float(lo_e), float(hi_e)
+    scale = max(abs(lo_f), abs(hi_f), hi_f - lo_f)
+    ldev = max(abs(rep[0] - lo_f), abs(rep[1] - hi_f)) / scale
+    dev["limits"] = ldev
+    lo_u, hi_u = lo_f, hi_f
+    if not ldev <= tol_lim:
+        probs.append(("limits_match_definition", f"reported limits {rep} but the configuration defines ({lo_f!r}, {hi_f!r})"))
+    else:
+        lo_u, hi_u = rep
+    below = P.fidx[af[P.fidx] <= lo_u]
+    above = P.fidx[af[P.fidx] >= hi_u]
+    zdev = 0.0
+    if len(below):
+        d0 = np.abs(o[below])
+        d0 = np.where(np.isnan(d0), np.inf, d0)
+        zdev = max(zdev, float(d0.max()))
+        if not d0.max() <= tol:
+            k = int(below[int(np.argmax(d0))])
+            probs.append(("lower_limit_to_0", f"entry {P.flat[k]!r} <= lower limit {lo_u!r} maps to {o[k]!r}, expected 0"))
+    if len(above):
+        d1 = np.abs(o[above] - 1.0)
+        d1 = np.where(np.isnan(d1), np.inf, d1)
+        zdev = max(zdev, float(d1.max()))
+        if not d1.max() <= tol:
+            k = int(above[int(np.argmax(d1))])
+            probs.append(("upper_limit_to_1", f"entry {P.flat[k]!r} >= upper limit {hi_u!r} maps to {o[k]!r}, expected 1"))
+    if ends is not None:
+        dl = max(abs(ends[0][0]), abs(ends[0][1] - 1.0))
+        dl = float("inf") if dl != dl else dl
+        zdev = max(zdev, dl)
+        if not dl <= tol or any(ends[1]):
+            probs.append(("limits_to_0_and_1", f"the reported limits {rep} map to {ends[0]} (mask {ends[1]}), expected [0, 1]"))
+    dev["limit01"] = zdev
+    # linear stretch: the affine map of the interval — whole array in float64, sample in exact rationals
+    if kw.get("stretch_type", "linear") == "linear" and kw.get("power", 1.0) == 1.0:
+        with np.errstate(all="ignore"):
+            want = np.clip((af[P.fidx] - lo_u) / (hi_u - lo_u), 0.0, 1.0)
+        ad = np.abs(of - want)
+        ad = np.where(np.isnan(ad), np.inf, ad)
+        k = int(np.argmax(ad))
+        dev["affine"] = float(ad[k])
+        worst_s, ks = 0.0, -1
+        L, H = Fraction(lo_u), Fraction(hi_u)
+        for i in P.sample(kw):
+            w = float(min(max((exact(P.flat[i].item()) - L) / (H - L), Fraction(0)), Fraction(1)))
+            e = abs(o[i] - w)
+            e = float("inf") if e != e else float(e)
+            if e > worst_s:
+                worst_s, ks = e, i
+        dev["affine_exact_sample"] = worst_s
+        if ad[k] > tol or worst_s > tol:
+            i = int(P.fidx[k]) if ad[k] > tol else ks
+            w = float(min(max((exact(P.flat[i].item()) - L) / (H - L), Fraction(0)), Fraction(1)))
+            probs.append(("linear_is_affine", f"linear stretch: entry {P.flat[i]!r} (flat index {i}) maps to {o[i]!r}, the affine map of the interval ({lo_u!r}, {hi_u!r}) gives {w!r}"))
+    return probs, dev, info
+
+
+def size_item(d, seed=0, want_dev=False):
+    a = build_large(d, seed)
+    P = LargePrep(a)
+    t = Tally()
+    devs = {}
+    for it, ikw in SIZE_INTERVALS:
+        for st, skw in SIZE_STRETCHES:
+            kw = {"interval_type": it, "stretch_type": st}
+            kw.update(ikw)
+            kw.update(skw)
+            for mode in MODES:
+                probs, dev, info = measure_large(P, mode, kw)
+                for k, v in dev.items():
+                    key = ("f32" if a.dtype == np.float32 else "f64/int", k)
+                    devs[key] = max(devs.get(key, 0.0), v)
+                case = {"part": "size", "array": d, "mode": mode, "kwargs": kw}
+                if probs:
+                    probs.sort(key=lambda p: RELATION_ORDER.index(p[0]))
+                    more = f" [also: {', '.join(r for r, _ in probs[1:])}]" if len(probs) > 1 else ""
+                    cls = {"relation": probs[0][0], "mode": mode, "interval": interval_label(kw), "dtype_kind": dtype_kind(a.dtype), "dtype": str(a.dtype),
+                           "arg_type": "none", "via": "size-family", "power": d["power"], "side": d["side"]}
+                    t.fail(cls, case, f"{a.dtype}{a.shape} ({a.size} elements, {d['side']} 2**{d['power']}) pedestal {d['pedestal']!r} mode={mode} {kw}: {probs[0][1]}{more}")
+                nontrivial = "out_min" in info and info["out_max"] > info["out_min"]
+                t.case(key=("size", d, mode, kw) if nontrivial else None, nontrivial=nontrivial,
+                       outcome=("size", d["power"], d["side"], len(d["shape"]), d["dtype"], d["pedestal"], mode, kw, round(info.get("out_min", -1.0), 6), round(info.get("out_max", -1.0), 6)))
+                t.extra["size_family_points"] += 1
+                if a.size > (1 << 20):
+                    t.extra["size_family_points_above_2^20_elements"] += 1
+    t.extra["size_family_arrays"] += 1
+    if want_dev:
+        return t, devs
+    return t
+
+
 # ----------------------------------------------------------------------------- stretch o inverse
 def stretch_objects():
     cn = _lib()
@@ -1103,6 +1358,13 @@ def run(ctx):
     if ctx.tally.extra["history_lazy_sequences"] != len(hcfg) * len(HIST_ARRAYS) ** depth or ctx.tally.extra["history_frozen_sequences"] < len(hcfg) * 50:
         raise Broken("history part did not enumerate every history")
 
+    # SIZE x PEDESTAL family (large arrays first so that the pool drains evenly)
+    sdesc = size_descriptors(quick)
+    ctx.say(f"size x pedestal: {len(sdesc)} arrays x {len(SIZE_INTERVALS) * len(SIZE_STRETCHES)} configurations x {len(MODES)} modes")
+    ctx.pmap(size_item, sorted(sdesc, key=lambda d: -int(np.prod(d["shape"]))), chunk=1, label="size-pedestal", seed=ctx.seed)
+    if ctx.tally.extra["size_family_points"] != len(sdesc) * len(SIZE_INTERVALS) * len(SIZE_STRETCHES) * len(MODES) or ctx.tally.extra["size_family_points_above_2^20_elements"] < 100:
+        raise Broken("size x pedestal family not enumerated completely")
+
     worst = inverse_identities(ctx.fail, ctx.tally)
     ctx.say(f"stretch/inverse identities: {ctx.tally.extra['inverse_identity_points']} compositions, worst deviation {worst:.3g}")
 
@@ -1123,6 +1385,15 @@ def run(ctx):
             "presets": names,
             "resolve_forms": [f[0] for f in resolve_forms([(0, Fraction(0)), (1, Fraction(1))])] if resolve is not None else [],
             "display_norms": (names + DISPLAY_EXTRA) if ditems else [],
+            "size_family": {
+                "element_counts": "just below / at / just above 2**p as 2-D (r-1,c),(r,c),(r+1,c) and 1-D (2**p,),(2**p+1,), p in " + str(SIZE_POWERS_QUICK if quick else SIZE_POWERS_THOROUGH) + ("; quick keeps (r,c),(r+1,c) for p=20" if quick else ""),
+                "shapes": sorted({tuple(d_["shape"]) for d_ in sdesc}),
+                "contents": [f"{dt} spread ~{'1000 counts' if dt.startswith('int') else '1'} on pedestal {ped!r}" for dt, ped in SIZE_CONTENTS],
+                "intervals": [i[0] for i in SIZE_INTERVALS],
+                "stretches": [[s_, p_] for s_, p_ in SIZE_STRETCHES],
+                "modes": MODES,
+                "clauses": "whole array, vectorised; monotone through the sort order; affine oracle on the whole array (float64) and on a strided sample + extremes (exact rationals)",
+            },
             "history_arrays": HIST_ARRAYS,
             "history_configurations": [c[0] for c in hcfg],
             "history_shapes": f"lazy: every sequence of {depth} arrays (repeats included) on one object without data=; frozen: data=D then X, Y, X for every D and ordered pair X != Y; default instances: every ordered pair X != Y",
@@ -1134,10 +1405,11 @@ def run(ctx):
             "stretch_configurations": len(STRETCHES),
             "lattice_points": len(items) * len(specs) * len(STRETCHES),
             "inverse_grid_points": 101,
+            "size_family_arrays": len(sdesc),
             "history_depth": depth,
             "history_configurations": len(hcfg),
         },
-        tolerances={"float64_and_int": TOL64, "float32": TOL32, "stretch_inverse": TOL_INV},
+        tolerances={"float64_and_int": TOL64, "float32": TOL32, "stretch_inverse": TOL_INV, "size_family_float64_and_int": TOL_SIZE},
     )
     if ctx.tally.extra["points_with_nan"] < 100:
         raise Broken("hardly any lattice point carried a NaN: the masking clause would be vacuous")
@@ -1149,6 +1421,17 @@ def replay(ctx, case):
     if "inverse" in case:
         t = Tally()
         inverse_identities(lambda cls, c, msg: (ctx.fail(cls, c, msg) if c == case else None), t)
+        return
+    if case.get("part") == "size":
+        d = case["array"]
+        P = LargePrep(build_large(d, ctx.seed))
+        probs, dev, info = measure_large(P, case["mode"], case["kwargs"])
+        print(f"  {d['dtype']}{tuple(d['shape'])} = {P.a.size} elements ({d['side']} 2**{d['power']}), pedestal {d['pedestal']!r}, data range [{P.af[P.order[0]]!r}, {P.af[P.order[-1]]!r}]")
+        print(f"  CustomNormalization(**{case['kwargs']}, data={'<input>' if case['mode'] == 'frozen' else None})(input)")
+        print(f"  observed: reported limits {info.get('rep')}, output range over finite entries [{info.get('out_min')}, {info.get('out_max')}], deviations {dev}")
+        print("  expected: finite entries in [0,1], non-decreasing in sort order, <= lower limit -> 0, >= upper limit -> 1, linear stretch = affine map, NaN masked")
+        for rel, msg in probs:
+            ctx.fail({"relation": rel, "mode": case["mode"], "via": "size-family"}, case, msg)
         return
     if case.get("part") == "history":
         if case["mode"] == "default_instance":
